@@ -16,9 +16,10 @@ class ToyMulti(chi.MechanisticModel):
     parameters     a_1 .. a_n, k, b      (all outputs positive for a, b > 0)
     """
 
-    def __init__(self, n_out=2):
+    def __init__(self, n_out=2, out_names=None):
         super(ToyMulti, self).__init__()
         self._n = int(n_out)
+        self._out_names = None if out_names is None else list(out_names)
         self._s = False
         self._sel = None         # indices of parameters with sensitivities
         self.calls = []          # tap: (parameters, times, with_sens)
@@ -26,7 +27,7 @@ class ToyMulti(chi.MechanisticModel):
         self.share_calls = False  # copies append to the same tap list
 
     def copy(self):
-        m = ToyMulti(self._n)
+        m = ToyMulti(self._n, self._out_names)
         m._s = self._s
         m._sel = None if self._sel is None else list(self._sel)
         m.tap = self.tap
@@ -53,6 +54,8 @@ class ToyMulti(chi.MechanisticModel):
         return self._n + 2
 
     def outputs(self):
+        if self._out_names is not None:
+            return list(self._out_names)
         return ['Out %d' % (i + 1) for i in range(self._n)]
 
     def parameters(self):
